@@ -659,31 +659,105 @@ pub fn input_for_spec(spec: Spec, max_items: usize, with_hostile: bool) -> Boxed
                 class: "spliced".into(),
             }
         });
+    // a valid document behind what files from the wild start with: byte order marks (whole or
+    // cut), line ends, NUL
+    let prefixes: Vec<&'static [u8]> = vec![
+        b"\xEF\xBB\xBF",
+        b"\xEF\xBB",
+        b"\xEF",
+        b"\xFF\xFE",
+        b"\xFE\xFF",
+        b"\r\n",
+        b"\n",
+        b"\0",
+        b" ",
+        b"\xEF\xBB\xBF\n",
+    ];
+    let prefixed = (doc_strategy(spec, max_items), proptest::sample::select(prefixes)).prop_map(move |(d, pre)| {
+        let mut bytes = pre.to_vec();
+        bytes.extend_from_slice(&d.render(&[], false, false).bytes);
+        Input {
+            spec,
+            bytes,
+            class: "prefixed".into(),
+        }
+    });
     if with_hostile {
         let hostile = hostile_strategy(spec.parser).prop_map(move |bytes| Input {
             spec,
             bytes,
             class: "hostile".into(),
         });
+        let repeated = repetition_strategy(spec, max_items);
         prop_oneof![
-            5 => valid,
-            6 => mutated,
-            2 => seeded,
-            3 => arbitrary,
-            1 => spliced,
-            4 => hostile,
+            20 => valid,
+            24 => mutated,
+            8 => seeded,
+            12 => arbitrary,
+            4 => spliced,
+            16 => hostile,
+            2 => prefixed,
+            3 => repeated,
         ]
         .boxed()
     } else {
         prop_oneof![
-            6 => valid,
-            6 => mutated,
-            2 => seeded,
-            3 => arbitrary,
-            1 => spliced,
+            12 => valid,
+            12 => mutated,
+            4 => seeded,
+            6 => arbitrary,
+            2 => spliced,
+            1 => prefixed,
         ]
         .boxed()
     }
+}
+
+/// One short token repeated 10^3..10^6 times at a token boundary of a valid document (C05: depth
+/// of recursion, quadratic rescans and per-repetition allocations only show at this scale).
+pub fn repetition_strategy(spec: Spec, max_items: usize) -> BoxedStrategy<Input> {
+    let dict: Vec<&'static [u8]> = match spec.parser {
+        ParserId::Cnf | ParserId::Wcnf | ParserId::Gcnf => vec![
+            b"\n", b"c\n", b" ", b"\t", b"0 ", b"0\n", b"1 ", b"-1 ", b"-", b"c x\n", b"\r\n", b"{1} ", b"1 0\n", b"{", b"9",
+        ],
+        ParserId::Log => vec![b"\n", b"c\n", b"v ", b"v 1\n", b"v\n", b" ", b"1 ", b"-", b"s SATISFIABLE\n", b"x\n", b"0\n"],
+        ParserId::Btor2 => vec![b"\n", b"; c\n", b";\n", b" ", b"1 ", b"-", b"\t", b"a", b"1 sort bitvec 1\n", b"0"],
+        _ => vec![b"\n", b"0\n", b"2\n", b" ", b"c\n", b"\x80", b"\xff", b"\x00", b"i0 x\n", b"1", b"0 0 0\n"],
+    };
+    (
+        doc_strategy(spec, max_items),
+        proptest::sample::select(dict),
+        prop_oneof![3 => 1_000usize..20_000, 2 => 20_000usize..200_000, 1 => 200_000usize..1_000_000],
+        any::<u16>(),
+        any::<bool>(),
+    )
+        .prop_map(move |(d, tok, n, at, cut_tail)| {
+            let r = d.render(&[], false, false);
+            // a token boundary when the rendering has tokens, any offset otherwise
+            let pos = if r.toks.is_empty() {
+                (at as usize * (r.bytes.len() + 1)) >> 16
+            } else {
+                r.toks[(at as usize * r.toks.len()) >> 16].end.min(r.bytes.len())
+            };
+            let mut bytes = r.bytes[..pos].to_vec();
+            if !bytes.is_empty() && !tok.starts_with(b"\n") {
+                bytes.push(b' ');
+            }
+            // at most ~1 MB per case
+            let n = n.min((1 << 20) / tok.len());
+            for _ in 0..n {
+                bytes.extend_from_slice(tok);
+            }
+            if !cut_tail {
+                bytes.extend_from_slice(&r.bytes[pos..]);
+            }
+            Input {
+                spec,
+                bytes,
+                class: "repeated-token".into(),
+            }
+        })
+        .boxed()
 }
 
 /// Was this AIGER document written for the binary format (helper for callers that only have a
